@@ -43,6 +43,9 @@ var (
 	nSeq    = flag.Int("nseq", 40, "sequential specification cases")
 	pace    = flag.Duration("pace", 8*time.Millisecond, "max random pause of a client between operations")
 	noNem   = flag.Bool("nonemesis", false, "no faults")
+	minB    = flag.Int("minb", 24, "min operations per key before it is retired")
+	maxB    = flag.Int("maxb", 40, "max operations per key before it is retired")
+	maxUnk  = flag.Int("maxunk", 4, "unknown outcomes after which a key is retired")
 	raceDur = flag.Duration("racedur", 3*time.Second, "duration of the same-key race rounds (0 = none)")
 	pairDur = flag.Duration("pairdur", 3*time.Second, "duration of the write-through-leader / shortcut-through-follower pairs (0 = none)")
 	doC     = flag.Bool("consts", false, "print Consts.v")
@@ -475,7 +478,7 @@ func main() {
 	}
 	fmt.Printf("cluster up after %.1fs, leader %d\n", float64(nowUs())/1e6, c.leader())
 
-	w := newWorkload(*seed, 3, 24, 40, 4)
+	w := newWorkload(*seed, 3, *minB, *maxB, *maxUnk)
 	rng := rand.New(rand.NewSource(*seed*7919 + 13))
 
 	// ---- phase 1: sequential specification cases (no faults)
